@@ -47,7 +47,9 @@ SumSizes(Q, t, x) == IF x > Len(Q) THEN 0
                      ELSE (IF Q[x].s <= t /\ t <= Q[x].e THEN Q[x].size ELSE 0) + SumSizes(Q, t, x + 1)
 RECURSIVE MaxSizeAt(_, _, _)
 MaxSizeAt(Q, lo, hi) == IF lo > hi THEN 0 ELSE Max2(SumSizes(Q, lo, 1), MaxSizeAt(Q, lo + 1, hi))
-MinRequired(Q) == MaxSizeAt(Q, 0, T - 1)                         \* min_required_size
+RECURSIVE MaxAtStarts(_, _)                                      \* the accumulated size only grows at start times
+MaxAtStarts(Q, x) == IF x > Len(Q) THEN 0 ELSE Max2(SumSizes(Q, Q[x].s, 1), MaxAtStarts(Q, x + 1))
+MinRequired(Q) == MaxAtStarts(Q, 1)                              \* min_required_size = max(size_at_time)
 Urgency(Q, x) == MaxSizeAt(Q, Q[x].s, Q[x].e)
 (* LiveRangeInfo.__lt__ *)
 HcLess(Q, x, y) ==
@@ -151,24 +153,41 @@ Start == /\ phase = "build" /\ Len(R) > 0
                                                         !.best_addr = r[1].addr]
                /\ phase' = IF r[2] > h'.minreq THEN "search" ELSE "done"
          /\ UNCHANGED R
-LoopCond == (h.best_size > par.limit /\ h.i < par.maxit) \/ (h.i - h.last < MinImprove)
+LoopCondOf(st, pr) == (st.best_size > pr.limit /\ st.i < pr.maxit) \/ (st.i - st.last < MinImprove)
+LoopCond == LoopCondOf(h, par)
+(* one pass of the loop body of search() once attempt_bottleneck_fix has left `ind` in indices:
+   the new allocator state and whether the search goes on *)
+AfterIteration(Q, st, ind) ==
+    LET r == AllocIndices(Q, st, ind, st.best_size)
+        st1 == With(st, Fields(r[1]))
+        new == r[2]
+    IN IF new <= st.best_size
+       THEN LET st2 == [st1 EXCEPT !.last = IF new < st.best_size THEN st.i ELSE st.last,
+                                    !.impr = IF new < st.best_size THEN st.impr + 1 ELSE st.impr,
+                                    !.best_size = new, !.indices = ind, !.best_indices = ind,
+                                    !.best_addr = r[1].addr, !.iters = st.iters + 1]
+            IN IF new <= st.minreq
+               THEN [h |-> st2, phase |-> "done", size |-> new]                              \* target reached
+               ELSE [h |-> [st2 EXCEPT !.i = st.i + 1], phase |-> "search", size |-> new]
+       ELSE [h |-> [st1 EXCEPT !.indices = st.best_indices, !.i = st.i + 1, !.iters = st.iters + 1],
+             phase |-> "search", size |-> new]
 Iterate == /\ phase = "search" /\ LoopCond
            /\ (IF Guarded THEN TRUE ELSE ~WouldRaise(R, h))
            /\ \E ind \in FixOutcomes(R, h, h.indices, h.i - h.last) :
-                LET r == AllocIndices(R, h, ind, h.best_size)
-                    st == With(h, Fields(r[1]))
-                    new == r[2]
-                IN IF new <= h.best_size
-                   THEN LET st2 == [st EXCEPT !.last = IF new < h.best_size THEN h.i ELSE h.last,
-                                               !.impr = IF new < h.best_size THEN h.impr + 1 ELSE h.impr,
-                                               !.best_size = new, !.indices = ind, !.best_indices = ind,
-                                               !.best_addr = r[1].addr, !.iters = h.iters + 1]
-                        IN IF new <= h.minreq
-                           THEN h' = st2 /\ phase' = "done"                                   \* target reached
-                           ELSE h' = [st2 EXCEPT !.i = h.i + 1] /\ phase' = "search"
-                   ELSE h' = [st EXCEPT !.indices = h.best_indices, !.i = h.i + 1, !.iters = h.iters + 1]
-                        /\ phase' = "search"
+                LET nx == AfterIteration(R, h, ind) IN h' = nx.h /\ phase' = nx.phase
            /\ UNCHANGED <<R, par>>
+(* is `ind` an ordering attempt_bottleneck_fix may produce?  (the test form of FixOutcomes, used by the
+   trace specification: no set of orderings is built) *)
+FirstSwapTo(Q, st, ind0, ind1) == LET tl == TurnList(Q, st)
+                                  IN IF Len(tl) < 2 THEN ind1 = ind0
+                                     ELSE \E a, b \in Range(tl) : a < b /\ ind1 = Swap(ind0, a, b)
+MayProduce(Q, st, ind0, stuck, ind) ==
+    IF stuck <= MaxStuck THEN FirstSwapTo(Q, st, ind0, ind)
+    ELSE LET tl == TurnList(Q, st)
+             nonnb == NonNb(Q, st, ind0, tl)
+         IN \E ind1 \in FirstSwaps(Q, st, ind0) :
+               LET tl2 == More(Q, st, ind1, tl, nonnb, 1)
+               IN \E a, b \in Range(tl2) : ind = Swap(ind1, a, b)
 Raise == /\ phase = "search" /\ LoopCond /\ ~Guarded /\ WouldRaise(R, h)
          /\ phase' = "raised"
          /\ UNCHANGED <<R, par, h>>
